@@ -119,6 +119,7 @@ std::ostream& operator<<(std::ostream& os, const Real& a);
 Real fresh(const std::string& name);                 // fresh symbolic real (or the model value in concrete mode)
 Real fresh(const std::string& name, uint8_t sign);   // with sign knowledge; the constraint is added to the path
 Real from_expr(const z3::expr& e, uint8_t sign = 0);
+Real exact_mul(const Real& a, const Real& b);  // product as an exact rational term even when both operands are concrete doubles
 Real ite(const z3::expr& c, const Real& a, const Real& b);
 z3::expr lt(const Real& a, const Real& b);
 z3::expr le(const Real& a, const Real& b);
@@ -129,6 +130,7 @@ z3::expr bfalse();
 
 bool concrete_mode();                // replay: every fresh() takes its value from the supplied model
 bool decide(const z3::expr& cond);   // fork point
+bool choose(const std::string& name);  // nondeterministic choice (a fork on a fresh unconstrained boolean)
 void assume(const z3::expr& cond, const std::string& why = "");
 // obligation: pc => prop.  Records verdict (unsat = discharged / sat = violation candidate / unknown)
 bool check(const std::string& name, const z3::expr& prop);
